@@ -62,6 +62,9 @@ func c03(c *Ctx) {
 	c03Acceptance(c)
 	// the sender (any caller's goroutine) and the receive loop run the envelope code at the same time, and nothing
 	// serialises a send against a receive: scratch space shared through a package variable mixes the two key derivations
+	r.Rule("R03.B", "no function of packages messages and utils writes through a []byte parameter (the key, the packet, the body belong to the caller; the key is used for every later message)", 4)
+	c.paramsUntouched("R03.B", load.MsgPkg, nil)
+	c.paramsUntouched("R03.B", load.UtilsPkg, nil)
 	r.Rule("R03.G", "nothing reachable from the envelope writers and readers (Serialize, DeserializeEncrypted, DeserializeUnencrypted) writes a package-level variable or appends / copies into the storage of one: a send and a receive overlap freely", 1)
 	{
 		var entries []*ssa.Function
